@@ -28,6 +28,7 @@ one transport per request, and the position-preserving "required field missing" 
 import FV.Model.Processor
 import FV.Proofs.Processor
 import FV.Generated.Locks
+import FV.Proofs.Locks
 
 namespace FV.C14
 open FV FV.Proc
@@ -430,5 +431,15 @@ critical section ONE step of the model and rules out the self-deadlocks (a secon
 writer, SendError under SendReply's lock) and leaked locks that would wedge every later request. -/
 theorem c14_lock_discipline :
     FV.Locks.ok [5, 6] FV.Generated.Locks.mutexTags FV.Generated.Locks.facts = true := by decide +kernel
+
+/-- What the decided discipline means for EVERY call path of lib/go's (resolved) call graph: a call made under
+one of these mutexes never reaches, however deep, a function that acquires the same mutex
+(`FV.Locks.closed_sound`: the mask table is closed under calls, so the number of rounds is not trusted). -/
+theorem c14_no_nested_lock_on_any_call_path {fn : FV.Locks.Fn} (hfn : fn ∈ FV.Generated.Locks.facts)
+    {m g h : Nat} (hheld : (m, g) ∈ fn.heldCalls)
+    (hrel : FV.Locks.relevant [5, 6] FV.Generated.Locks.mutexTags m = true)
+    (hr : FV.Locks.Reach FV.Generated.Locks.facts g h) {fnh : FV.Locks.Fn}
+    (hh : FV.Generated.Locks.facts[h]? = some fnh) : m ∉ fnh.acquires :=
+  FV.Locks.ok_no_nested_path _ _ _ c14_lock_discipline hfn hheld hrel hr hh
 
 end FV.C14
